@@ -74,6 +74,11 @@ def gen_history(seed, tier, *, n_ops=(2, 6), genkw=None,
             ops.append(dict(op="bump", node=rng.choice(bumpable)))
     if final_run:
         ops.append(dict(op="run", cfg=_cfg(rng, world), final=True))
+    for op in ops:
+        # a run is either the first thing a fresh process does (Plan and Registry rebuilt from the description) or
+        # one more run of the same objects in a process that has run them before
+        if op["op"] == "run" and rng.random() < 0.4:
+            op["reuse"] = True
     # distance between successive modified times: from whole seconds down to tens of microseconds
     tick = rng.choice([1.0, 1.0, 0.3, 0.3, 0.001, 0.00002])
     return dict(seed=seed, world=world, ops=ops, sched=sc, tick=tick), rng
